@@ -472,3 +472,106 @@ func ctAuthorize(s *DiscoveryServer, con *Connection, identities []string) {
 			(proxy.Metadata.ServiceAccount == "" || proxy.VerifiedIdentity.ServiceAccount == proxy.Metadata.ServiceAccount)))
 	verif.Ensures("failure-verifies-nothing", err == nil || proxy.VerifiedIdentity == was)
 }
+
+// ---------------------------------------------------------------------------------------------
+// C04 (delta) / C05: request classification on a delta stream
+// ---------------------------------------------------------------------------------------------
+
+func dHas(proxy *model.Proxy, url string) bool {
+	_, ok := proxy.WatchedResources[url]
+	return ok
+}
+
+func dInv(proxy *model.Proxy) bool {
+	return proxy != nil && proxy.WatchedResources != nil &&
+		verif.Forall(func(u string) bool { return !dHas(proxy, u) || proxy.WatchedResources[u] != nil })
+}
+
+//verif:lemma
+//verif:prop C04 C05
+func lemmaShouldRespondDelta(con *Connection, request *discovery.DeltaDiscoveryRequest) {
+	verif.Requires("connection-with-proxy", con != nil && con.proxy != nil && dInv(con.proxy))
+	verif.Requires("request-present", request != nil)
+	proxy := con.proxy
+	url := request.TypeUrl
+	nonce := request.ResponseNonce
+	had := dHas(proxy, url)
+	prev := proxy.WatchedResources[url]
+	nack := request.ErrorDetail != nil
+	var prevNonceSent string
+	var prevAlways, prevWild bool
+	var prevNames sets.String
+	if had {
+		prevNonceSent = prev.NonceSent
+		prevAlways = prev.AlwaysRespond
+		prevWild = prev.Wildcard
+		prevNames = prev.ResourceNames
+	}
+	generatorManaged := requiresResourceNamesModification(url)
+	snap := verif.Snapshot()
+
+	respond := shouldRespondDelta(con, request)
+
+	verif.Assert("subscription-table-well-formed", dInv(proxy))
+	// from the statement: "stays silent ... on a NACK" and "no request sequence, conformant or not, crashes it"
+	if nack {
+		verif.Assert("nack-silent", !respond)
+		verif.Assert("nack-keeps-record", dHas(proxy, url) == had && proxy.WatchedResources[url] == prev)
+		return
+	}
+	// C05: "unknown type on this stream => always respond, even with a nonce"; the retained names the
+	// client reports (initial_resource_versions) are folded into the subscription on record
+	if !had {
+		verif.Assert("first-or-reconnect-responds", respond)
+		rec := proxy.WatchedResources[url]
+		verif.Assert("first-or-reconnect-creates-record", dHas(proxy, url) && rec != nil && verif.FreshSince(snap, rec) && rec.TypeUrl == url &&
+			rec.NonceSent == "" && rec.NonceAcked == "" && !rec.AlwaysRespond)
+		sub := request.ResourceNamesSubscribe
+		unsub := request.ResourceNamesUnsubscribe
+		wild := (!inStrings(unsub, len(unsub), "*") && (inStrings(sub, len(sub), "*") || hasVersion(request.InitialResourceVersions, "*"))) || len(sub) == 0
+		verif.Assert("first-or-reconnect-wildcard", rec.Wildcard == wild)
+		verif.Assert("first-or-reconnect-record-folds-retained-names", (generatorManaged && wild && rec.ResourceNames == nil) ||
+			(!(generatorManaged && wild) && verif.Forall(func(x string) bool {
+				return hasName(rec.ResourceNames, x) == (x != "*" && !inStrings(unsub, len(unsub), x) &&
+					(inStrings(sub, len(sub), x) || hasVersion(request.InitialResourceVersions, x)))
+			})))
+		return
+	}
+	// "stays silent ... on a request carrying a stale nonce"
+	if nonce != "" && nonce != prevNonceSent {
+		verif.Assert("stale-nonce-silent", !respond)
+		verif.Assert("stale-nonce-keeps-record", dHas(proxy, url) && proxy.WatchedResources[url] == prev &&
+			prev.NonceAcked == verif.At(snap, func() string { return prev.NonceAcked }) &&
+			verif.Same(prev.ResourceNames, prevNames) &&
+			verif.Forall(func(x string) bool { return hasName(prev.ResourceNames, x) == verif.At(snap, func() bool { return hasName(prevNames, x) }) }))
+		return
+	}
+	// an ACK (nonce matches) or a spontaneous subscription change (no nonce)
+	verif.Assert("record-kept", dHas(proxy, url) && proxy.WatchedResources[url] == prev)
+	verif.Assert("warming-flag-consumed", !prev.AlwaysRespond)
+	verif.Assert("ack-recorded", nonce == "" || (prev.NonceAcked == nonce && prev.LastError == ""))
+	sub := request.ResourceNamesSubscribe
+	unsub := request.ResourceNamesUnsubscribe
+	if generatorManaged && prevWild {
+		verif.Assert("generator-managed-wildcard-stores-no-names", prev.ResourceNames == nil)
+		verif.Assert("generator-managed-wildcard-responds-on-any-named-change", respond == (len(sub) > 0 || len(unsub) > 0 || prevAlways))
+		return
+	}
+	asked := func(x string) bool {
+		return verif.At(snap, func() bool { return hasName(prevNames, x) }) || inStrings(sub, len(sub), x) || hasVersion(request.InitialResourceVersions, x)
+	}
+	// "the server's record of the client's subscription equals what the client last asked for"
+	verif.Assert("record-is-the-fold", prev.ResourceNames != nil && verif.Forall(func(x string) bool {
+		return hasName(prev.ResourceNames, x) == (x != "*" && asked(x) && !inStrings(unsub, len(unsub), x))
+	}))
+	added := verif.Exists(func(x string) bool {
+		return (inStrings(sub, len(sub), x) || hasVersion(request.InitialResourceVersions, x)) && !verif.At(snap, func() bool { return hasName(prevNames, x) })
+	})
+	dropped := verif.Exists(func(x string) bool { return inStrings(unsub, len(unsub), x) && asked(x) })
+	// "responds ... to a request that adds names"; "stays silent on an ACK"
+	verif.Assert("adds-names-responds", !added || respond)
+	verif.Assert("pure-ack-silent", added || dropped || prevAlways || !respond)
+	verif.Assert("warming-responds", !prevAlways || respond)
+	// from the code: dropping names it had also counts as a change and is answered
+	verif.Assert("drops-names-responds", !dropped || respond)
+}
